@@ -390,7 +390,7 @@ OBS = ["none", "once", "twice", "detached", "two"]
 
 def _cfg(**kw):
     base = dict(groups=SG.plain_groups(bases=(1, 2, 4, 8, 16, 32), max_dots=2), min_pitch=0, max_pitch=135, octaves=list(range(0, 11)), bpm_p=5, bpms=st.integers(30, 300),
-                max_bars=3, max_groups=5, max_chord=4, rest_p=4, partial_last=True, instruments=["none"], twin_p=5, subclass_p=8, unsorted_p=6, twin_entry_p=6, reuse_p=6, empty_containers=True, bpm_on_empty=True,
+                max_bars=3, max_groups=5, max_chord=4, rest_p=4, partial_last=True, instruments=["none"], twin_p=5, subclass_p=8, unsorted_p=6, twin_entry_p=6, reuse_p=6, same_bar_p=6, empty_containers=True, bpm_on_empty=True,
                 meters=[[4, 4], [3, 4], [6, 8], [2, 2], [5, 4], [2, 4], [7, 8], [3, 8]])
     base.update(kw)
     return SG.Cfg(**base)
